@@ -151,9 +151,8 @@ impl StringGenerator {
         let is_concealed = attr.is_concealed();
 
         if let Some(idx) = fore_idx {
-            if idx < 8 {
-                is_bold = false;
-            } else if idx > 7 && idx < 16 {
+            // a dark color keeps the bold flag of the attribute (it is displayed as its bright variant)
+            if idx > 7 && idx < 16 {
                 is_bold = true;
                 fore_idx = Some(idx - 8);
             }
